@@ -105,7 +105,7 @@ UNIT = {
         {"file": F_CT, "kind": "fn", "name": "parse_log_id", "contract": "    ensures log_id_post(i@, r),",
          "subst": [(r"key_id: (\w+)\s*\.try_into\(\)", r"key_id: slice_try_into_array(\1)")],
          "splices": [{"at_start": True, "text": "    let ghost i0 = i@;"},
-                     {"after": r"let \(i, key_id\) = [^;]*;", "text": "    proof { assert(key_id@ =~= i0.subrange(0, 32)); assert(i@ =~= i0.subrange(32, i0.len() as int)); }"}]},
+                     {"after": r"let \((\w+), (\w+)\) = [^;]*;", "text": "    proof { assert({g2}@ =~= i0.subrange(0, 32)); assert({g1}@ =~= i0.subrange(32, i0.len() as int)); }"}]},     # rename-tolerant
         {"file": F_CT, "kind": "fn", "name": "parse_ct_extensions", "contract": "    ensures ct_ext_post(i@, r),",
          "splices": [{"at_start": True, "text": "    let ghost i0 = i@;\n    proof { reveal_with_fuel(be_val, 3); }"},
                      {"after": r"let \(i, ext_len\) = [^;]*;", "text": "    proof { assert(ext_len as int == be16s(i0, 0)); assert(i@ =~= i0.subrange(2, i0.len() as int)); }"},
